@@ -130,7 +130,7 @@ fn job(seed: u64, j: usize, tier: Tier) -> Outcome {
             }
         }
     };
-    let n = tier.pick(2_500, 400_000);
+    let n = tier.pick(10_000, 400_000);
     let src = scen::hop_addr(v6, 2, 0);
     let max_quote = if v6 { 1232 } else { 1020 };
     for i in 0..n {
